@@ -1972,8 +1972,16 @@ class AstEval:
         kwargs = {}
         for kw_arg in arg.keywords:
             if kw_arg.arg is None:
-                kwargs.update(await self.aeval(kw_arg.value))
+                mapping = await self.aeval(kw_arg.value)
+                if not hasattr(mapping, "keys"):
+                    raise TypeError(f"argument after ** must be a mapping, not {type(mapping).__name__}")
+                dup_keys = kwargs.keys() & mapping.keys()
+                if dup_keys:
+                    raise TypeError(f"got multiple values for keyword argument '{sorted(dup_keys)[0]}'")
+                kwargs.update(mapping)
             else:
+                if kw_arg.arg in kwargs:
+                    raise TypeError(f"got multiple values for keyword argument '{kw_arg.arg}'")
                 kwargs[kw_arg.arg] = await self.aeval(kw_arg.value)
         #
         # try to deduce function name, although this only works in simple cases
